@@ -869,6 +869,10 @@ def fam_gamma_fixed():
                                                      E('a1/li/x', 'a2/li/u', fp(), delay=F(2001), spread=F(1000))],
                                          "rates 4/2000 and 4/2001 out of one vectorized source variable")))
 
+    out.append(("F11x:neglected-delay-with-spread", mk(lambda fp: [E('a0/li/x', 'a1/li/u', fp(), delay=F(1, 8), spread=F(1, 16)),
+                                                                   E('a1/li/x', 'a2/li/u', fp(), delay=F(1), spread=F(1, 2))],
+                                                       "a delay of half a step (neglected) that carries a spread, next to a "
+                                                       "real kernel out of the same vectorized variable")))
     out.append(("F11x:parallel-kernels", mk(lambda fp: [E('a0/li/x', 'a1/li/u', fp(), delay=A_[0], spread=A_[1]),
                                                         E('a0/li/x', 'a1/li/u', fp(), delay=B_[0], spread=B_[1]),
                                                         E('a1/li/x', 'a2/li/u', fp(), delay=A_[0], spread=A_[1])],
@@ -940,6 +944,8 @@ def fam_dde(seed=0, n=10):
             e1 = X.add(X.mul(X.neg(V('k')), X.mul(V('x'), X.past('x', C(d2)))), V('g'))
             eqs = [('x', 'de', e1)]
             vars_ = {'x': ('state', fp()), 'k': ('const', fp()), 'g': ('const', fp())}
+        if variant == 3 and notation == 'call' and k % 8 == 7:
+            notation = 'call-split'      # x(t - a - b): a numeric delay written as two subtractions
         op = OpSpec('dd', eqs, vars_, output='x', style={'past': notation})
         li = op_leaky(fp)
         li.vars['u'] = ('input', F(0))
